@@ -80,6 +80,9 @@ Apply(e) ==
                 ELSE IF ~SaOk(r.ns, e) THEN Fail("frame from an address no CA of this stack holds")
                 ELSE S([ns EXCEPT ![n] = r.ns], [pc EXCEPT ![n] = r.pc], pend, Note(claimed, e))
            ELSE Fail("output without a cause")
+      [] e.ev = "rx" /\ Has2(e, "flags") /\ (~e.flags.ext \/ e.flags.remote \/ e.flags.error) ->
+           \* only extended-id data frames are processed at all (11-bit, remote and error frames are ignored)
+           IF Has2(e, "exc") THEN Fail("rx exception behaviour") ELSE Keep
       [] e.ev = "rx" ->
            LET r == Notify(ns[n], Cfg(n), e.id, e.data) IN
            IF r.unmodeled THEN Fail("input outside this specification")
